@@ -3,9 +3,11 @@
 package c24
 
 import (
+	"bytes"
 	"context"
 	"crypto/tls"
 	"fmt"
+	"io"
 	"net"
 	"runtime"
 	"sync"
@@ -335,14 +337,45 @@ func endToEnd(run *mon.Run, t *testing.T, idx int) {
 			}(g)
 		}
 		wg.Wait()
+		mu.Lock()
+		maxBlocking := maxOpen // (the streaming pool below has a capacity of its own)
+		mu.Unlock()
+		// streaming uses a pool of its own: a stream that breaks in the middle of a multi-command reply must still give
+		// its connection back (closed), or the pool loses the slot: afterwards poolSize simultaneous streams must work
+		srv.ClearPlan()
+		srv.Plan(&fakeredis.Rule{Name: "cut-stream", Match: fakeredis.MatchArg("cut-me"), Times: 1, Action: fakeredis.Action{CloseAfter: 3}})
+		for round := 0; round < poolSize+1; round++ {
+			ms := c.DoMultiStream(context.Background(), c.B().Arbitrary("VERIF.ECHO").Keys("k").Args(fmt.Sprintf("cut-me-%d", round), "str").Build(),
+				c.B().Arbitrary("VERIF.ECHO").Keys("k").Args("second", "str").Build())
+			for ms.HasNext() {
+				if _, err := ms.WriteTo(io.Discard); err != nil {
+					break
+				}
+			}
+			srv.Plan(&fakeredis.Rule{Name: "cut-stream", Match: fakeredis.MatchArg("cut-me"), Times: 1, Action: fakeredis.Action{CloseAfter: 3}})
+			run.Observe("broken_streams", 1)
+		}
+		srv.ClearPlan()
+		streams := make([]rueidis.RedisResultStream, poolSize)
+		for i := range streams {
+			ctx, cancel := context.WithTimeout(context.Background(), time.Second)
+			streams[i] = c.DoStream(ctx, c.B().Arbitrary("VERIF.ECHO").Keys("k").Args(fmt.Sprintf("probe-%d", i), "str").Build())
+			defer cancel()
+		}
+		for i := range streams {
+			var buf bytes.Buffer
+			if _, err := streams[i].WriteTo(&buf); err != nil || buf.String() != fmt.Sprintf("echo:probe-%d", i) {
+				run.Violation("pool-slot-lost", "e2e|stream-broken-before-last-reply", map[string]any{"case": name, "BlockingPoolSize": poolSize, "probe": i, "err": fmt.Sprint(err), "got": buf.String()})
+			}
+		}
 		c.Close()
 		srv.Close()
 		mu.Lock()
 		defer mu.Unlock()
-		if maxOpen > poolSize {
-			run.Violation("over-capacity", "e2e|blocking-pool-connections", map[string]any{"case": name, "BlockingPoolSize": poolSize, "max_open_pool_connections": maxOpen})
+		if maxBlocking > poolSize {
+			run.Violation("over-capacity", "e2e|blocking-pool-connections", map[string]any{"case": name, "BlockingPoolSize": poolSize, "max_open_pool_connections": maxBlocking})
 		}
-		run.Case(fmt.Sprintf("%s|pool=%d|max=%d", name, poolSize, maxOpen), maxOpen >= 1)
+		run.Case(fmt.Sprintf("%s|pool=%d|max=%d", name, poolSize, maxBlocking), maxBlocking >= 1)
 	})
 	if dl != "" {
 		run.Violation("hang-or-leak", name, map[string]any{"synctest": dl, "rueidis_frames": drv.RueidisFrames(stacks)})
